@@ -802,6 +802,77 @@ static std::string db2_digest(const std::string& dir)
     return o;
 }
 
+// every observer of the 2.x table API, rendered (shared by C16.table and C14.table)
+static std::string observe_tables(v2::engine_library& L, e::engine_schema schema, const std::vector<int64_t>& tids, bool with_verify, size_t clip = 40)
+{
+    tt t = L.track();
+    auto pt = L.playlist();
+    auto et = L.playlist_entity();
+    std::string o;
+    auto ids = t.all_ids();
+    std::sort(ids.begin(), ids.end());
+    for (auto id : ids)
+    {
+        auto row = t.get(id);
+        o += "track " + std::to_string(id) + " exists=" + r(t.exists(id)) + ":";
+        for (auto& col : columns())
+        {
+            if (!has_col(schema, col))
+                continue;
+            o += std::string(" ") + col.name + "=" + col.get(t, id).substr(0, clip) + "|" + col.of(*row).substr(0, clip);
+        }
+        o += " by-path=" + r(t.find_id_by_path(row->path)) + "\n";
+    }
+    o += "missing: " + r(t.exists(98765)) + r(t.get(98765).has_value()) + r(t.find_id_by_path("no/such/path").has_value()) + "\n";
+    auto pl = pt.all_ids();
+    std::sort(pl.begin(), pl.end());
+    for (auto id : pl)
+    {
+        auto row = pt.get(id);
+        o += "list " + std::to_string(id) + " " + r(*row) + " exists=" + r(pt.exists(id)) + " children=";
+        for (auto x : pt.child_ids(id))
+            o += std::to_string(x) + ",";
+        o += " desc=";
+        auto ds = pt.descendant_ids(id);
+        std::sort(ds.begin(), ds.end());
+        for (auto x : ds)
+            o += std::to_string(x) + ",";
+        o += " find=" + r(pt.find_id(row->parent_list_id, row->title)) + " ids=" + std::to_string(pt.find_ids(row->title).size()) + " tracks=";
+        for (auto x : et.track_ids(id))
+            o += std::to_string(x) + ",";
+        for (auto& er : et.get_for_list(id))
+            o += "(" + std::to_string(er.id) + ":" + std::to_string(er.track_id) + ":" + std::to_string(er.next_entity_id) + ")";
+        for (auto tid : tids)
+            o += et.get(id, tid) ? "m" : "-";
+        o += "\n";
+    }
+    o += "roots=";
+    for (auto x : pt.root_ids())
+        o += std::to_string(x) + ",";
+    o += " find_root=" + r(pt.find_root_id("L0")) + " info=" + L.information().get().uuid.substr(0, 4) + "\n";
+    o += "orphans=";
+    for (auto x : et.track_ids(4242))
+        o += std::to_string(x) + ",";
+    o += "\n";
+    {
+        auto inf = L.information().get();
+        o += "info " + std::to_string(inf.id) + " " + inf.uuid + " " + std::to_string(inf.schema_version_major) + "." + std::to_string(inf.schema_version_minor) + "." +
+             std::to_string(inf.schema_version_patch) + " " + std::to_string(inf.current_played_indicator) + " " + std::to_string(inf.last_rekord_box_library_import_read_counter) + "\n";
+    }
+    if (schema < e::engine_schema::schema_2_20_3)
+    {
+        auto cl = L.change_log();
+        o += "changelog=";
+        for (auto& x : cl.all())
+            o += std::to_string(x.id) + ":" + std::to_string(x.track_id) + ",";
+        auto last = cl.last();
+        o += " last=" + (last ? std::to_string(last->id) : std::string("-")) + " after=" + std::to_string(cl.after(last ? last->id - 1 : 0).size()) + "\n";
+    }
+    if (with_verify)
+        L.verify();
+    return o;
+}
+
 // ---------------------------------------------------------------------------------------------- C16 at table level
 // every observing operation of the 2.x table API, applied twice: no modifying statement, no change counter movement, same answers
 static void prop_c16_table(const vf::Case& c, Ctx& ctx)
@@ -843,73 +914,7 @@ static void prop_c16_table(const vf::Case& c, Ctx& ctx)
         et.add_back(v2::playlist_entity_row{0, lids[0], 987654, uuid, 0, 0});
         ctx.label("dangling-entities");
     }
-    auto observe_lib = [&](v2::engine_library& L) {
-        tt t = L.track();
-        auto pt = L.playlist();
-        auto et = L.playlist_entity();
-        std::string o;
-        auto ids = t.all_ids();
-        std::sort(ids.begin(), ids.end());
-        for (auto id : ids)
-        {
-            auto row = t.get(id);
-            o += "track " + std::to_string(id) + " exists=" + r(t.exists(id)) + ":";
-            for (auto& col : columns())
-            {
-                if (!has_col(schema, col))
-                    continue;
-                o += std::string(" ") + col.name + "=" + col.get(t, id).substr(0, 40) + "|" + col.of(*row).substr(0, 40);
-            }
-            o += " by-path=" + r(t.find_id_by_path(row->path)) + "\n";
-        }
-        o += "missing: " + r(t.exists(98765)) + r(t.get(98765).has_value()) + r(t.find_id_by_path("no/such/path").has_value()) + "\n";
-        auto pl = pt.all_ids();
-        std::sort(pl.begin(), pl.end());
-        for (auto id : pl)
-        {
-            auto row = pt.get(id);
-            o += "list " + std::to_string(id) + " " + r(*row) + " exists=" + r(pt.exists(id)) + " children=";
-            for (auto x : pt.child_ids(id))
-                o += std::to_string(x) + ",";
-            o += " desc=";
-            auto ds = pt.descendant_ids(id);
-            std::sort(ds.begin(), ds.end());
-            for (auto x : ds)
-                o += std::to_string(x) + ",";
-            o += " find=" + r(pt.find_id(row->parent_list_id, row->title)) + " ids=" + std::to_string(pt.find_ids(row->title).size()) + " tracks=";
-            for (auto x : et.track_ids(id))
-                o += std::to_string(x) + ",";
-            for (auto& er : et.get_for_list(id))
-                o += "(" + std::to_string(er.id) + ":" + std::to_string(er.track_id) + ":" + std::to_string(er.next_entity_id) + ")";
-            for (auto tid : tids)
-                o += et.get(id, tid) ? "m" : "-";
-            o += "\n";
-        }
-        o += "roots=";
-        for (auto x : pt.root_ids())
-            o += std::to_string(x) + ",";
-        o += " find_root=" + r(pt.find_root_id("L0")) + " info=" + L.information().get().uuid.substr(0, 4) + "\n";
-        o += "orphans=";
-        for (auto x : et.track_ids(4242))
-            o += std::to_string(x) + ",";
-        o += "\n";
-        {
-            auto inf = L.information().get();
-            o += "info " + std::to_string(inf.id) + " " + inf.uuid + " " + std::to_string(inf.schema_version_major) + "." + std::to_string(inf.schema_version_minor) + "." +
-                 std::to_string(inf.schema_version_patch) + " " + std::to_string(inf.current_played_indicator) + " " + std::to_string(inf.last_rekord_box_library_import_read_counter) + "\n";
-        }
-        if (schema < e::engine_schema::schema_2_20_3)
-        {
-            auto cl = L.change_log();
-            o += "changelog=";
-            for (auto& x : cl.all())
-                o += std::to_string(x.id) + ":" + std::to_string(x.track_id) + ",";
-            auto last = cl.last();
-            o += " last=" + (last ? std::to_string(last->id) : std::string("-")) + " after=" + std::to_string(cl.after(last ? last->id - 1 : 0).size()) + "\n";
-        }
-        L.verify();
-        return o;
-    };
+    auto observe_lib = [&](v2::engine_library& L) { return observe_tables(L, schema, tids, true); };
     auto observe_all = [&]() { return observe_lib(lib); };
     auto& sh = vfshim::state();
     sh.record_sql = true;
@@ -963,9 +968,327 @@ static void prop_c16_table(const vf::Case& c, Ctx& ctx)
     }
 }
 
+
+// ---------------------------------------------------------------------------------------------- C14 at table level
+// every mutating call of the 2.x table API, with a fault injected at each of its modifying statements / its COMMIT in turn
+struct TState
+{
+    v2::engine_library lib;
+    std::vector<int64_t> tids, lids;
+    std::string uuid;
+    std::string hist;
+};
+static const std::vector<std::string>& table_mutators()
+{
+    static const std::vector<std::string> m = {"playlist.add",  "playlist.update", "playlist.move", "playlist.remove", "entity.add_back", "entity.remove",
+                                               "entity.clear",  "track.add",       "track.update",  "track.remove",    "track.set_column", "change_log.add",
+                                               "information.played_indicator"};
+    return m;
+}
+static std::unique_ptr<TState> build_tstate(e::engine_schema schema, const vf::Case& c, Ctx& ctx)
+{
+    S h(c[0]);
+    h.raw();  // schema
+    h.raw();  // mutator
+    auto w = std::unique_ptr<TState>(new TState{v2::engine_library::create_temporary(schema), {}, {}, "", ""});
+    tt t = w->lib.track();
+    auto pt = w->lib.playlist();
+    auto et = w->lib.playlist_entity();
+    w->uuid = w->lib.information().get().uuid;
+    Distinct d;
+    size_t nrows = 1 + h.below(3);
+    for (size_t i = 0; i < nrows; ++i)
+    {
+        S s(c.size() > 1 + i ? c[1 + i] : S::empty());
+        w->tids.push_back(t.add(gen_row(s, ctx, d, static_cast<int>(i + 1))));
+    }
+    size_t nlists = 2 + h.below(4);
+    for (size_t i = 0; i < nlists; ++i)
+    {
+        int64_t parent = (i > 0 && h.below(3) != 0) ? w->lids[h.below(w->lids.size())] : 0;
+        w->lids.push_back(pt.add(v2::playlist_row{0, "L" + std::to_string(i), parent, true, 0, g_time(h), true}));
+        for (auto tid : w->tids)
+            if (h.coin())
+                et.add_back(v2::playlist_entity_row{0, w->lids.back(), tid, w->uuid, 0, 0});
+    }
+    w->hist = std::to_string(nrows) + " tracks, " + std::to_string(nlists) + " playlists";
+    return w;
+}
+// performs mutator m with arguments drawn from s (a pure function of the state and s); returns a description; "(no ...)" = nothing to do
+static std::string table_mutation(TState& w, e::engine_schema schema, size_t m, S s, Ctx& ctx, bool& threw)
+{
+    tt t = w.lib.track();
+    auto pt = w.lib.playlist();
+    auto et = w.lib.playlist_entity();
+    const std::string& name = table_mutators()[m];
+    std::string desc = name;
+    Distinct d;
+    d.n = 500000;
+    threw = false;
+    auto lid = [&]() { return w.lids[s.below(w.lids.size())]; };
+    auto tid = [&]() { return w.tids[s.below(w.tids.size())]; };
+    try
+    {
+        if (name == "playlist.add")
+        {
+            int64_t parent = s.coin() ? 0 : lid();
+            if (parent != 0 && !pt.exists(parent))
+                parent = 0;
+            auto sib = parent == 0 ? pt.root_ids() : pt.child_ids(parent);
+            std::vector<int64_t> sv(sib.begin(), sib.end());
+            size_t at = s.below(sv.size() + 1);
+            int64_t next = at < sv.size() ? sv[at] : 0;
+            desc += "(parent " + std::to_string(parent) + ", before " + std::to_string(next) + ")";
+            pt.add(v2::playlist_row{0, "N" + std::to_string(s.below(1000)), parent, true, next, g_time(s), s.coin()});
+        }
+        else if (name == "playlist.update" || name == "playlist.move")
+        {
+            int64_t id = lid();
+            auto got = pt.get(id);
+            if (!got)
+                return desc + "(no such list any more)";
+            v2::playlist_row p = *got;
+            if (name == "playlist.move")
+            {
+                auto desc_ids = pt.descendant_ids(id);
+                std::vector<std::pair<int64_t, int64_t>> targets;   // (parent, next) different from the current position
+                std::vector<int64_t> parents{0};
+                for (auto x : pt.all_ids())
+                    if (x != id && std::find(desc_ids.begin(), desc_ids.end(), x) == desc_ids.end())
+                        parents.push_back(x);
+                std::sort(parents.begin(), parents.end());
+                for (auto par : parents)
+                {
+                    auto sib = par == 0 ? pt.root_ids() : pt.child_ids(par);
+                    std::vector<int64_t> sv;
+                    for (auto x : sib)
+                        if (x != id)
+                            sv.push_back(x);
+                    sv.push_back(0);
+                    for (auto nx : sv)
+                        if (par != p.parent_list_id || nx != p.next_list_id)
+                            targets.emplace_back(par, nx);
+                }
+                if (targets.empty())
+                    return desc + "(nothing to move to)";
+                auto tg = targets[s.below(targets.size())];
+                p.parent_list_id = tg.first;
+                p.next_list_id = tg.second;
+                desc += "(" + std::to_string(id) + " -> parent " + std::to_string(tg.first) + ", before " + std::to_string(tg.second) + ")";
+            }
+            else
+                desc += "(" + std::to_string(id) + ")";
+            p.title = "U" + std::to_string(s.below(1000));
+            p.last_edit_time = g_time(s);
+            p.is_explicitly_exported = !p.is_explicitly_exported;
+            pt.update(p);
+        }
+        else if (name == "playlist.remove")
+        {
+            // prefer a playlist that has descendants (more statements)
+            int64_t id = lid();
+            for (auto x : w.lids)
+                if (s.coin() && pt.exists(x) && !pt.descendant_ids(x).empty())
+                {
+                    id = x;
+                    break;
+                }
+            if (!pt.exists(id))
+                return desc + "(no such list any more)";
+            desc += "(" + std::to_string(id) + ", " + std::to_string(pt.descendant_ids(id).size()) + " descendants)";
+            pt.remove(id);
+        }
+        else if (name == "entity.add_back")
+        {
+            int64_t l = lid(), tr = s.below(4) == 0 ? 555000 + static_cast<int64_t>(s.below(9)) : tid();
+            if (et.get(l, tr))
+                for (auto x : w.lids)
+                    for (auto y : w.tids)
+                        if (!et.get(x, y))
+                        {
+                            l = x;
+                            tr = y;
+                        }
+            if (et.get(l, tr))
+                return desc + "(no free pair)";
+            desc += "(" + std::to_string(l) + "," + std::to_string(tr) + ")";
+            et.add_back(v2::playlist_entity_row{0, l, tr, w.uuid, 0, static_cast<int64_t>(s.below(3))});
+        }
+        else if (name == "entity.remove" || name == "entity.clear")
+        {
+            int64_t l = lid();
+            for (auto x : w.lids)
+                if (et.track_ids(l).empty() && !et.track_ids(x).empty())
+                    l = x;
+            auto tr = et.track_ids(l);
+            if (tr.empty())
+                return desc + "(no entity anywhere)";
+            if (name == "entity.remove")
+            {
+                int64_t x = tr[s.below(tr.size())];
+                desc += "(" + std::to_string(l) + "," + std::to_string(x) + " of " + std::to_string(tr.size()) + ")";
+                et.remove(l, x);
+            }
+            else
+            {
+                desc += "(" + std::to_string(l) + ", " + std::to_string(tr.size()) + " entries)";
+                et.clear(l);
+            }
+        }
+        else if (name == "track.add")
+        {
+            auto row = gen_row(s, ctx, d, 99);
+            desc += "(" + row.path.substr(0, 30) + ")";
+            t.add(row);
+        }
+        else if (name == "track.update")
+        {
+            int64_t id = tid();
+            if (!t.exists(id))
+                return desc + "(no such track any more)";
+            auto row = gen_row(s, ctx, d, 98);
+            row.id = id;
+            desc += "(" + std::to_string(id) + ")";
+            t.update(row);
+        }
+        else if (name == "track.remove")
+        {
+            int64_t id = tid();
+            if (!t.exists(id))
+                return desc + "(no such track any more)";
+            desc += "(" + std::to_string(id) + ")";
+            t.remove(id);
+        }
+        else if (name == "track.set_column")
+        {
+            int64_t id = tid();
+            if (!t.exists(id))
+                return desc + "(no such track any more)";
+            std::vector<const Col*> cols;
+            for (auto& col : columns())
+                if (has_col(schema, col))
+                    cols.push_back(&col);
+            const Col* col = cols[s.below(cols.size())];
+            auto row = gen_row(s, ctx, d, 97);
+            desc += "(" + std::to_string(id) + ", " + col->name + ")";
+            col->set(t, id, row);
+        }
+        else if (name == "change_log.add")
+        {
+            if (!(schema < e::engine_schema::schema_2_20_3))
+                return desc + "(no change log in this schema)";
+            int tr = static_cast<int>(s.below(1000));
+            desc += "(" + std::to_string(tr) + ")";
+            w.lib.change_log().add(tr);
+        }
+        else
+        {
+            int64_t v = static_cast<int64_t>(s.raw());
+            desc += "(" + std::to_string(v) + ")";
+            w.lib.information().update_current_played_indicator(v);
+        }
+    }
+    catch (const vf::Fail&)
+    {
+        throw;
+    }
+    catch (const std::exception& ex)
+    {
+        threw = true;
+        desc += std::string(" threw ") + ex.what();
+    }
+    return desc;
+}
+static std::string first_diff(const std::string& a, const std::string& b)
+{
+    std::istringstream x(a), y(b);
+    std::string la, lb;
+    while (true)
+    {
+        bool ga = static_cast<bool>(std::getline(x, la)), gb = static_cast<bool>(std::getline(y, lb));
+        if (!ga && !gb)
+            return "(no difference)";
+        if (!ga || !gb || la != lb)
+            return "before: " + (ga ? la.substr(0, 400) : std::string("<end>")) + "  after: " + (gb ? lb.substr(0, 400) : std::string("<end>"));
+    }
+}
+static void prop_c14_table(const vf::Case& c, Ctx& ctx)
+{
+    S h(c[0]);
+    auto schema = e::supported_v2_schemas[h.below(e::supported_v2_schemas.size())];
+    ctx.label("schema=" + e::to_string(schema));
+    size_t m = h.below(table_mutators().size());
+    const std::string& mname = table_mutators()[m];
+    ctx.label("table:" + mname);
+    const vf::Record& oprec = c.size() > 4 ? c[4] : vf::S::empty();
+    auto& sh = vfshim::state();
+    vfshim::disarm();
+    uint64_t W = 0;
+    {
+        auto w = build_tstate(schema, c, ctx);
+        bool threw = false;
+        vfshim::reset_counters();
+        std::string desc = table_mutation(*w, schema, m, S(oprec), ctx, threw);
+        W = sh.fault_points;
+        ctx.describe = "schema " + e::to_string(schema) + " " + w->hist + " || " + desc + " [W=" + std::to_string(W) + "]";
+        ctx.key = ctx.describe;
+        if (threw || desc.find("(no") != std::string::npos)
+        {
+            ctx.label("op-not-applicable");
+            return;
+        }
+    }
+    if (W == 0)
+    {
+        ctx.label("W=0");
+        return;
+    }
+    if (W >= 2)
+        ctx.label("W>=2");
+    if (W >= 2)
+        ctx.label("W>=2:" + mname);
+    ctx.nontrivial = W >= 2;
+    for (uint64_t k = 1; k <= W; ++k)
+    {
+        auto w = build_tstate(schema, c, ctx);
+        std::vector<int64_t> probe = w->tids;
+        std::string before = observe_tables(w->lib, schema, probe, false, 1000000);
+        bool threw = false;
+        vfshim::arm(k);
+        table_mutation(*w, schema, m, S(oprec), ctx, threw);
+        bool fired = sh.fired;
+        vfshim::disarm();
+        std::string where = "2.x table API " + mname + " leaves a partial update or an unusable library: " + ctx.describe + " fault at statement " + std::to_string(k) + "/" + std::to_string(W);
+        VF_CHECK(fired, where << ": the fault position was not reached (operation is not deterministic?)");
+        VF_CHECK(threw, where << ": the call did not report the failed statement");
+        sqlite3* conn = sh.last_db;
+        std::string after = observe_tables(w->lib, schema, probe, false, 1000000);
+        VF_CHECK(before == after, where << ": observable state changed although the call failed: " << first_diff(before, after));
+        VF_CHECK(!conn || sqlite3_get_autocommit(conn) != 0, where << ": a transaction was left open");
+        bool threw2 = false;
+        std::string d3 = table_mutation(*w, schema, m, S(oprec), ctx, threw2);
+        VF_CHECK(!threw2, where << ": after the failed call the same operation no longer succeeds: " << d3);
+        VF_CHECK(!conn || sqlite3_get_autocommit(conn) != 0, where << ": a transaction was left open after the retry");
+        if (observe_tables(w->lib, schema, probe, false, 1000000) != before)
+            ctx.label("retry-has-effect");
+        if (k >= 2)
+            ctx.label("k>=2");
+    }
+}
+
 int main(int argc, char** argv)
 {
     std::vector<vf::PropSpec> specs;
+    {
+        vf::PropSpec p;
+        p.id = "C14.table";
+        p.fn = prop_c14_table;
+        p.rec_min = 5;
+        p.rec_max = 5;
+        p.rec_len = 900;
+        p.watchdog_s = 120;
+        specs.push_back(p);
+    }
     {
         vf::PropSpec p;
         p.id = "C16.table";
